@@ -21,6 +21,7 @@ type Env struct {
 	pkg    *types.Package
 	depth  int
 	what   string
+	recFuel map[string]int // remaining unfoldings of recursive specs while translating their own bodies
 	skolem bool // translate top-level universal quantifiers of a goal by fresh constants
 }
 
@@ -826,20 +827,53 @@ func (e *Env) applySpec(sd *SpecDef, args []Val) Val {
 		e.fail("spec %s: %v", sd.Name, err)
 	}
 	if sd.Uninterp || sd.Rec {
-		f := sym("spec " + sd.Name)
+		// Recursive specs are unfolded at most twice ("fuel"): f (the user's symbol) is defined through f!1, f!1
+		// through f!0, and f!0 has no definition; all three denote the same function (synonym axioms). This keeps
+		// E-matching from unfolding a recursive definition without bound.
+		level := 2
+		if sd.Rec {
+			if l, ok := e.recFuel[sd.Name]; ok {
+				level = l
+			}
+		}
+		symAt := func(l int) string {
+			if l >= 2 || !sd.Rec {
+				return sym("spec " + sd.Name)
+			}
+			return sym(fmt.Sprintf("spec %s!%d", sd.Name, l))
+		}
+		f := symAt(level)
 		var ss, as []string
 		for i := range sd.Params {
 			ss = append(ss, c.sortOf(ptys[i]))
 			as = append(as, args[i].T)
 		}
-		c.decl("(declare-fun " + f + " (" + strings.Join(ss, " ") + ") " + c.sortOf(rt) + ")")
-		if sd.Rec && !c.declSet["recdef:"+f] {
+		for l := 0; l <= 2; l++ {
+			if sd.Rec || l == 2 {
+				c.decl("(declare-fun " + symAt(l) + " (" + strings.Join(ss, " ") + ") " + c.sortOf(rt) + ")")
+				// results of bounded integer type stay in that type's range
+				if ii, ok := intInfoOf(rt); ok && c.mode == ModeInt && !(ii.bits == 64 && ii.signed) && len(ss) > 0 {
+					var bs, vs []string
+					for i := range ss {
+						bs = append(bs, fmt.Sprintf("(ua%d %s)", i, ss[i]))
+						vs = append(vs, fmt.Sprintf("ua%d", i))
+					}
+					ap := app(symAt(l), vs...)
+					c.decl("(assert (forall (" + strings.Join(bs, " ") + ") (! " + c.rangeFact(ap, rt) + " :pattern (" + ap + "))))")
+				}
+			}
+		}
+		if sd.Rec && level > 0 && !c.declSet["recdef:"+f] {
 			c.declSet["recdef:"+f] = true
-			// definitional axiom with trigger on the application
-			ne := &Env{c: c, names: map[string]Val{}, heap: e.heap, old: e.old, pkg: spkg, depth: e.depth + 1, what: "recspec " + sd.Name}
+			fuel := map[string]int{}
+			for k, v := range e.recFuel {
+				fuel[k] = v
+			}
+			fuel[sd.Name] = level - 1
+			ne := &Env{c: c, names: map[string]Val{}, heap: e.heap, old: e.old, pkg: spkg, depth: e.depth + 1, what: "recspec " + sd.Name, recFuel: fuel}
 			var bs, vs []string
 			for i, p := range sd.Params {
-				bn := sym("rs_" + p.Name)
+				bn := sym(fmt.Sprintf("rs%d_%s", level, p.Name))
 				bs = append(bs, "("+bn+" "+c.sortOf(ptys[i])+")")
 				vs = append(vs, bn)
 				ne.names[p.Name] = Val{T: bn, Ty: ptys[i]}
@@ -847,10 +881,12 @@ func (e *Env) applySpec(sd *SpecDef, args []Val) Val {
 			body := ne.materialize(ne.tr(sd.Body), rt)
 			appl := app(f, vs...)
 			c.decl("(assert (forall (" + strings.Join(bs, " ") + ") (! (= " + appl + " " + body.T + ") :pattern (" + appl + "))))")
+			// synonym with the next lower level
+			c.decl("(assert (forall (" + strings.Join(bs, " ") + ") (! (= " + appl + " " + app(symAt(level-1), vs...) + ") :pattern (" + appl + "))))")
 		}
 		return Val{T: app(f, as...), Ty: rt}
 	}
-	ne := &Env{c: c, names: map[string]Val{}, heap: e.heap, old: e.old, pkg: spkg, depth: e.depth + 1, what: "spec " + sd.Name, skolem: e.skolem}
+	ne := &Env{c: c, names: map[string]Val{}, heap: e.heap, old: e.old, pkg: spkg, depth: e.depth + 1, what: "spec " + sd.Name, skolem: e.skolem, recFuel: e.recFuel}
 	e.skolem = false
 	for i, p := range sd.Params {
 		ne.names[p.Name] = args[i]
@@ -955,6 +991,14 @@ func (e *Env) call(x *ECall) Val {
 			return gv
 		}
 		return Val{T: c.mode.idxLit(0), Ty: intTy}
+	case "emod":
+		// emod(x, k): mathematical (always non-negative) remainder; cheaper for the solver than Go's signed %
+		a := e.mat(e.tr(x.Args[0]))
+		k := e.tr(x.Args[1])
+		if k.Num == nil || k.Num.Sign() <= 0 || c.mode != ModeInt {
+			e.fail("emod(x, k) needs int mode and a positive constant k")
+		}
+		return Val{T: "(mod " + a.T + " " + smtInt(k.Num) + ")", Ty: a.Ty}
 	case "sameslice":
 		a, b := e.tr(x.Args[0]), e.tr(x.Args[1])
 		return Val{T: eq(a.T, b.T), Ty: boolTy}
